@@ -495,3 +495,30 @@ Proof.
   exists 0, 1. eexists. eexists. eexists. eexists.
   split; [discriminate|]. vm_compute. repeat split; eauto.
 Qed.
+
+(* ------------------------------------------------------------ one sequential specification *)
+(* the map against which histories are linearized (Spec/Lin.v, lstep) is the store model of C14
+   (Model/Store.v, dstep - the machine that is run side by side with the Go store): same map
+   afterwards, same answer *)
+Definition sop_of_lop (op : lop) : sop :=
+  match op with
+  | LSet k v => OSet k v | LGet k => OGet k | LHas k => OHas k | LDelete k => ODelete k
+  | LLen => OLen | LKeys => OKeys | LGetAll => OGetAll | LMerge m => OMergeLit m | LClear => OClear
+  end.
+Definition lret_of_sret (r : sret) : lret :=
+  match r with
+  | RU => LU | RVal o => LVal o | RB b => LB b | RN n => LN n
+  | RNewKeys _ l => LKs l | RNewMap _ m => LMap (sort_map m)
+  | _ => LU
+  end.
+Lemma lstep_is_dstep (s : dst) (op : lop) :
+  d_map (fst (dstep s (sop_of_lop op))) = fst (lstep (d_map s) op) /\
+  lret_eqb (lret_of_sret (snd (dstep s (sop_of_lop op)))) (snd (lstep (d_map s) op)) = true.
+Proof.
+  destruct op; cbn; split; try reflexivity; auto using lret_eqb_refl.
+  - destruct (aget (d_map s) k); cbn; auto using Nat.eqb_refl.
+  - apply Bool.eqb_reflx.
+  - apply Nat.eqb_refl.
+  - apply keys_eqb_refl.
+  - apply amap_eqb_refl.
+Qed.
